@@ -7,5 +7,6 @@ from this file (so the model the correspondence is checked against is the one na
 namespace RedoModel
 def currentDefects : Deps.Defects :=
   { oobRebuildsDepsNotTarget := false,
-    failedTargetAbortsRun := false }
+    failedTargetAbortsRun := false,
+    oobRecordsDepsOnCaller := false }
 end RedoModel
